@@ -43,6 +43,8 @@ var _ Window = (*GlobalWindow)(nil)
 var aggTriggerFuncNames = map[string]bool{
 	"count": true, "sum": true, "avg": true, "min": true, "max": true,
 	"median": true, "stddev": true, "first_value": true, "last_value": true,
+	// configured by an extra argument: percentile(v, 0.5), nth_value(v, 2)
+	"percentile": true, "nth_value": true,
 }
 
 // GlobalWindow has no built-in boundary and never fires on its own. Each
@@ -95,7 +97,10 @@ type aggSpec struct {
 	inputField string // "*" for count(*)
 	// expr is set when the aggregate's argument is an expression (sum(v*2)): the
 	// aggregate is fed the expression's per-row value, not the inputField column.
-	expr      *types.FieldExpression
+	expr *types.FieldExpression
+	// params is the text of the extra arguments of a parameterised aggregate
+	// ("0.5" for percentile(v, 0.5)), empty when there are none.
+	params    string
 	prototype aggregator.AggregatorFunction
 }
 
@@ -171,6 +176,14 @@ func NewGlobalWindow(config types.WindowConfig) (*GlobalWindow, error) {
 
 // buildOutputSpecs turns the SELECT aggregation map into per-alias prototypes.
 func (gw *GlobalWindow) buildOutputSpecs() error {
+	// the aggregate calls as written, by placeholder: a parameterised aggregate
+	// (percentile(v, 0.5)) takes its extra arguments from the call
+	calls := make(map[string]aggregator.AggregationFieldInfo)
+	for _, pe := range gw.config.PostAggExpressions {
+		for _, f := range pe.RequiredFields {
+			calls[f.Placeholder] = aggregator.AggregationFieldInfo(f)
+		}
+	}
 	for alias, aggType := range gw.config.SelectFields {
 		inputField := gw.config.FieldAlias[alias]
 		if inputField == "" {
@@ -184,7 +197,11 @@ func (gw *GlobalWindow) buildOutputSpecs() error {
 		if aggType == aggregator.PostAggregation || aggType == aggregator.Expression {
 			continue
 		}
-		proto := aggregator.CreateBuiltinAggregator(aggType)
+		call, hasCall := calls[alias]
+		if !hasCall {
+			call = aggregator.AggregationFieldInfo{AggType: aggType}
+		}
+		proto := aggregator.NewCallAggregator(call)
 		if proto == nil {
 			continue
 		}
@@ -194,9 +211,17 @@ func (gw *GlobalWindow) buildOutputSpecs() error {
 			inputField: inputField,
 			prototype:  proto,
 		}
+		if open := strings.Index(call.FullCall, "("); open >= 0 {
+			if closing := matchingParen(call.FullCall, open); closing > open {
+				_, spec.params = splitAggArgs(call.FullCall[open+1 : closing])
+			}
+		}
 		if fe, ok := gw.config.FieldExpressions[alias]; ok && strings.TrimSpace(fe.Expression) != "" {
 			fe := fe
 			spec.expr = &fe
+		} else if hasCall && isExpressionArg(inputField) {
+			// percentile(v*2, 0.5): the input beside the extra arguments is an expression
+			spec.expr = &types.FieldExpression{Expression: inputField}
 		}
 		gw.outputSpecs = append(gw.outputSpecs, spec)
 	}
@@ -229,15 +254,18 @@ func (gw *GlobalWindow) buildTrigger(predicate string) error {
 		spec := triggerSpec{
 			placeholder: placeholder,
 			aggType:     aggregator.AggregateType(strings.ToLower(ref.funcName)),
-			inputField:  ref.inputField,
 		}
+		// percentile(v, 0.5): the aggregate is fed v and configured by the rest
+		var params string
+		spec.inputField, params = splitAggArgs(ref.inputField)
 
-		// Prefer reusing a SELECT output aggregate of the same type+field so the
-		// value isn't computed twice.
-		if idx := gw.findOutputSpec(spec.aggType, spec.inputField); idx >= 0 {
+		// Prefer reusing a SELECT output aggregate of the same type+field (and the
+		// same extra arguments) so the value isn't computed twice.
+		if idx := gw.findOutputSpec(spec.aggType, spec.inputField, params); idx >= 0 {
 			spec.outputAlias = gw.outputSpecs[idx].alias
 		} else {
-			proto := aggregator.CreateBuiltinAggregator(spec.aggType)
+			proto := aggregator.NewCallAggregator(aggregator.AggregationFieldInfo{
+				FuncName: ref.funcName, InputField: spec.inputField, AggType: spec.aggType, FullCall: ref.matchStr})
 			if proto == nil {
 				return fmt.Errorf("TRIGGER WHEN references unsupported aggregate %s", ref.funcName)
 			}
@@ -349,6 +377,30 @@ func matchingParen(s string, open int) int {
 		i++
 	}
 	return -1
+}
+
+// splitAggArgs splits the argument text of an aggregate call at its first top-level
+// comma into the aggregated input and the extra arguments that configure the
+// aggregate: "v*2, 0.5" gives "v*2" and "0.5", "coalesce(v, 0)" has no extra ones.
+func splitAggArgs(args string) (input, params string) {
+	depth := 0
+	for i := 0; i < len(args); {
+		switch args[i] {
+		case '\'', '"', '`':
+			i = skipQuoted(args, i)
+			continue
+		case '(':
+			depth++
+		case ')':
+			depth--
+		case ',':
+			if depth == 0 {
+				return strings.TrimSpace(args[:i]), compactExpr(args[i+1:])
+			}
+		}
+		i++
+	}
+	return strings.TrimSpace(args), ""
 }
 
 // isExpressionArg reports whether an aggregate argument is an expression to
@@ -496,12 +548,12 @@ func isOpChar(c byte) bool {
 	return c == '=' || c == '>' || c == '<' || c == '!'
 }
 
-// findOutputSpec returns the index of an output aggregate matching type+field,
-// or -1. count(*) is matched by inputField=="*".
-func (gw *GlobalWindow) findOutputSpec(aggType aggregator.AggregateType, inputField string) int {
+// findOutputSpec returns the index of an output aggregate matching type+field
+// and the extra arguments, or -1. count(*) is matched by inputField=="*".
+func (gw *GlobalWindow) findOutputSpec(aggType aggregator.AggregateType, inputField, params string) int {
 	for i := range gw.outputSpecs {
 		spec := &gw.outputSpecs[i]
-		if spec.aggType != aggType {
+		if spec.aggType != aggType || spec.params != params {
 			continue
 		}
 		if spec.expr != nil {
